@@ -165,6 +165,10 @@ def _consume(ctx):
     ok = incs and all(norm(i).replace(' ', '').endswith('+=1') for i in incs)
     ctx.shape(bool(ok), 'CONSUME', 'pass_back_halves slides by one component')
     revs = [c for c in walk_local(fp.node) if isinstance(c, ast.Call) and norm(c.func).endswith('.reverse')]
+    # other spellings of a reversal: x[::-1], reversed(x), list(reversed(x))
+    revs += [c for c in walk_local(fp.node) if isinstance(c, ast.Subscript) and isinstance(c.slice, ast.Slice)
+             and c.slice.lower is None and c.slice.upper is None and c.slice.step is not None and norm(c.slice.step) == '-1']
+    revs += [c for c in walk_local(fp.node) if isinstance(c, ast.Call) and dotted(c.func) == 'reversed']
     ctx.tri(len(revs) == 2, len(revs) == 1, 'CONSUME', 'pass_back_halves reverses before and after its scan',
             detail_bad="a single reverse(): the component list comes back in reversed order",
             key="CONSUME|pass_back_halves|reverse")
